@@ -31,6 +31,10 @@ pub struct Out {
     pub cases: u64,
     /// crash points evaluated per step before sampling sets in
     pub limit: usize,
+    /// index of the first op line of the current case in the global ops list
+    pub base: usize,
+    pub case_counter: u64,
+    pub inject_prop: bool,
 }
 
 pub fn json_str(s: &str) -> String {
@@ -63,6 +67,9 @@ impl Out {
             rule: String::new(),
             cases: 0,
             limit: 40,
+            base: 0,
+            case_counter: 0,
+            inject_prop: true,
         }
     }
 
@@ -70,6 +77,28 @@ impl Out {
     pub fn emit(&mut self, op: &str, out: &str, _x: Option<()>) {
         self.ops.push(op.to_string());
         self.impl_lines.push(out.to_string());
+    }
+
+    /// global index of the next op line
+    pub fn next_line(&self) -> usize {
+        self.base + self.ops.len()
+    }
+
+    pub fn merge(&mut self, o: Out) {
+        self.ops.extend(o.ops);
+        self.impl_lines.extend(o.impl_lines);
+        self.oracle.extend(o.oracle);
+        self.evaluations += o.evaluations;
+        for (k, v) in o.histogram {
+            *self.histogram.entry(k).or_insert(0) += v;
+        }
+        self.distinct.extend(o.distinct);
+        for smp in o.samples {
+            if self.samples.len() < 5 {
+                self.samples.push(smp);
+            }
+        }
+        self.cases += o.cases;
     }
 
     pub fn hist(&mut self, k: &str) {
@@ -157,9 +186,12 @@ fn split_cases(text: &str) -> Vec<(u64, Vec<String>)> {
     cases
 }
 
-fn run_case(out: &mut Out, ro: &mut crash::Reopener, prop: &str, n: u64, lines: &[String]) {
+fn run_case_inner(out: &mut Out, ro: &mut crash::Reopener, prop: &str, n: u64, lines: &[String]) {
     out.emit(&format!("case {n}"), &format!("case {n}"), None);
-    out.emit(&format!("prop {prop}"), &format!("prop {prop}"), None);
+    // the stream tag line: always present in generated cases; a replayed case keeps its own line count
+    if out.inject_prop || lines.iter().any(|l| l.starts_with("prop ")) {
+        out.emit(&format!("prop {prop}"), &format!("prop {prop}"), None);
+    }
     let lines: Vec<String> = lines.iter().filter(|l| !l.starts_with("prop ")).cloned().collect();
     let lines = &lines[..];
     match prop {
@@ -171,6 +203,58 @@ fn run_case(out: &mut Out, ro: &mut crash::Reopener, prop: &str, n: u64, lines: 
             for l in lines {
                 out.emit(l, "bad-op", None);
             }
+        }
+    }
+}
+
+/// Runs one case in its own thread under a watchdog; a case that does not finish is abandoned
+/// (its thread keeps running detached) and every op line of it gets the output `timeout`.
+fn run_case(out: &mut Out, dir: &str, prop: &str, n: u64, lines: &[String]) {
+    let (tx, rx) = std::sync::mpsc::channel();
+    let prop_s = prop.to_string();
+    let lines_v: Vec<String> = lines.to_vec();
+    let limit = out.limit;
+    let inject = out.inject_prop;
+    let base = out.ops.len();
+    out.case_counter += 1;
+    let dir = format!("{dir}/c{}", out.case_counter);
+    let dir2 = dir.clone();
+    std::thread::Builder::new()
+        .stack_size(64 * 1024 * 1024)
+        .spawn(move || {
+            guard::install_thread();
+            let mut local = Out::new();
+            local.limit = limit;
+            local.inject_prop = inject;
+            local.base = base;
+            let mut ro = crash::Reopener::new(&dir2);
+            run_case_inner(&mut local, &mut ro, &prop_s, n, &lines_v);
+            let _ = tx.send(local);
+        })
+        .expect("spawn case thread");
+    let secs = std::env::var("VERIF_CASE_TIMEOUT").ok().and_then(|s| s.parse().ok()).unwrap_or(120);
+    match rx.recv_timeout(std::time::Duration::from_secs(secs)) {
+        Ok(local) => {
+            out.merge(local);
+            let _ = std::fs::remove_dir_all(&dir);
+        }
+        Err(_) => {
+            let line = out.ops.len();
+            out.emit(&format!("case {n}"), &format!("case {n}"), None);
+            if out.inject_prop || lines.iter().any(|l| l.starts_with("prop ")) {
+                out.emit(&format!("prop {prop}"), &format!("prop {prop}"), None);
+            }
+            for l in lines.iter().filter(|l| !l.starts_with("prop ")) {
+                let l = l.split(" | ").next().unwrap_or(l);
+                out.emit(&format!("{l} | timeout"), "timeout", None);
+            }
+            let key = if prop == "C32" {
+                "C32/hang-after-failed-write/DbImpl::transaction_mut".to_string()
+            } else {
+                format!("{prop}/timeout/in-process-step")
+            };
+            out.violation(n, line, &key, "every step of a case must terminate", "terminates", &format!("no result after {secs}s"));
+            out.cases += 1;
         }
     }
 }
@@ -189,7 +273,6 @@ fn main() {
     let _ = std::fs::remove_dir_all(&tmp);
     std::fs::create_dir_all(&tmp).expect("tmp dir");
     let mut out = Out::new();
-    let mut ro = crash::Reopener::new(&tmp);
     out.rule = match prop.as_str() {
         "C03" | "C02" => "evaluations = crash points reopened; non-trivial case = a history with at least one step that changed the observable state through >= 3 storage calls".to_string(),
         "C32" => "evaluations = steps compared (in-process and after reopen); non-trivial case = the injected failure fired and at least one later step ran".to_string(),
@@ -221,7 +304,7 @@ fn main() {
                         for (_, lines) in split_cases(&text) {
                             case_no += 1;
                             out.hist("corpus_case");
-                            run_case(&mut out, &mut ro, &prop, case_no, &lines);
+                            run_case(&mut out, &tmp, &prop, case_no, &lines);
                         }
                     }
                 }
@@ -234,7 +317,7 @@ fn main() {
                         case_no += 1;
                         let mut lines = crash::gen_history(&mut rng, &tmp, if thorough { 16 } else { 12 });
                         lines.push("close".to_string());
-                        run_case(&mut out, &mut ro, &prop, case_no, &lines);
+                        run_case(&mut out, &tmp, &prop, case_no, &lines);
                     }
                 }
                 "C32" => {
@@ -248,19 +331,19 @@ fn main() {
                         let mode = if rng.chance(3, 4) { "once" } else { "persist" };
                         lines.insert(at, format!("fault {k} {mode}"));
                         lines.push("close".to_string());
-                        run_case(&mut out, &mut ro, &prop, case_no, &lines);
+                        run_case(&mut out, &tmp, &prop, case_no, &lines);
                     }
                 }
                 "C07" => {
                     let n = if thorough { 300_000 } else { 3000 };
-                    damaged::generate(&mut out, &mut ro, &mut rng, &mut case_no, n, &tmp);
+                    damaged::generate(&mut out, &mut rng, &mut case_no, n, &tmp);
                 }
                 "C05" => {
                     let n = if thorough { 5000 } else { 150 };
                     for _ in 0..n {
                         case_no += 1;
                         let lines = maint::gen_case(&mut rng, &tmp, if thorough { 120 } else { 40 });
-                        run_case(&mut out, &mut ro, &prop, case_no, &lines);
+                        run_case(&mut out, &tmp, &prop, case_no, &lines);
                     }
                 }
                 _ => {
@@ -272,8 +355,9 @@ fn main() {
         "replay" => {
             let ops = arg(&args, "--ops").expect("--ops");
             let text = std::fs::read_to_string(&ops).expect("ops file");
+            out.inject_prop = false;
             for (n, lines) in split_cases(&text) {
-                run_case(&mut out, &mut ro, &prop, n, &lines);
+                run_case(&mut out, &tmp, &prop, n, &lines);
             }
         }
         _ => {
